@@ -12,6 +12,13 @@ Engines
     iteration orders of the transpiler's sets (sorted / reverse / keyed pseudo-random: "another platform"), repeated and
     interleaved transpilations in one process, fresh processes - all byte-identical for every program inside
     the guard.
+
+The harness recognises two shapes of the source (promotion_shape): "pinned" - the hoisting order of
+_promote_branch_decls follows the set iteration order (known finding F-C10-promotion-order; the byte-identity oracle
+is applied inside the model's guard only); "repaired" - it no longer does and the inventory shows no unsorted set
+iteration left in that function (sorted(), first-assignment order ...: then EVERY generated program is under the
+byte-identity oracle, C10_candidate_fix_order_independent being the operative theorem, and the dictated-order
+correspondence is checked up to permutation).
 """
 from __future__ import annotations
 
@@ -744,12 +751,45 @@ def replay_finding(f):
     return len(distinct) > 1, {str(s): v[0][:16] for s, v in shas.items()}
 
 
+def promotion_shape():
+    """-> (shape, detail).  'pinned': the hoisting order of _promote_branch_decls follows the iteration order of the set
+    (the code as pinned, known finding F-C10-promotion-order);  'repaired': it does not depend on it AND the inventory
+    of the current source shows no unsorted set iteration left in _promote_branch_decls (any deterministic repair:
+    sorted(), first-assignment order ...);  'unclear': anything else (treated like 'pinned' by the oracle)."""
+    names = ["nb", "na", "nd", "nc"]
+    orders = [names, list(reversed(names)), ["nc", "na", "nd", "nb"], sorted(names)]
+    cases = [{"parent": [], "branches": [{"order": o, "types": {n: "int" for n in names}}], "else": False} for o in orders]
+    rs = C.run_impl("c10_impl.py", {"mode": "promote", "cases": cases})["results"]
+    got = [r.get("order") for r in rs]
+    follows = all(g == o for g, o in zip(got, orders))
+    constant = None not in got and len({tuple(g) for g in got}) == 1 and sorted(got[0]) == sorted(names)
+    unsorted_sites = None
+    try:
+        from harness.gen import setsites
+
+        def _die(msg):
+            raise RuntimeError(msg)
+        sites, _state = setsites.analyse(C.REPO / "src" / "Reduino" / "transpile", _die)
+        unsorted_sites = [f"{x['file']}:{x['line']} {x['iter']}" for x in sites if x["class"] == 0 and x["fn"] == "_promote_branch_decls"]
+    except Exception as e:  # noqa - the translator step has already reported it
+        unsorted_sites = [f"inventory failed: {e}"]
+    detail = {"observed_orders_for_4_dictated_orders": got, "unsorted_set_iterations_in__promote_branch_decls": unsorted_sites}
+    if follows and unsorted_sites:
+        return "pinned", detail
+    if constant and not unsorted_sites:
+        return "repaired", detail
+    return "unclear", detail
+
+
 # ---------------------------------------------------------------------------------------------------------
 def run(ctx: C.Ctx):
     rng = ctx.rng
     thorough = ctx.tier == "thorough"
     seeds = [0, 1, 2, 3] + ([rng.randrange(4, 2 ** 32 - 1) for _ in range(4)] if thorough else [])
     dist = {}
+    shape, shape_detail = promotion_shape()
+    repaired = shape == "repaired"
+    dist["promotion_shape_of_the_current_source"] = {"shape": shape, **shape_detail}
 
     # ------------------------------------------------------------------ skeleton programs
     skels = template_programs(rng)
@@ -775,7 +815,9 @@ def run(ctx: C.Ctx):
                 ctx.disagree("model could not decode a generated program", s["src"], m, None)
                 s["in_guard"] = False
                 continue
-            s["model0"], s["in_guard"] = decode_model(m)
+            s["model0"], s["model_ok"] = decode_model(m)
+            # a source whose promotion no longer consumes the set order claims the property for every program
+            s["in_guard"] = s["model_ok"] or repaired
     else:
         for s in skels:
             s["in_guard"] = s["origin"].startswith("random tight") and False
@@ -952,8 +994,8 @@ def run(ctx: C.Ctx):
             if mo != obs:
                 ctx.disagree("declaration/block skeleton: no iteration order of the modelled sets explains the emitted text",
                              {"program": s["src"], "variant": vname(sd), "origin": s["origin"]}, mo, obs)
-            if ok != s["in_guard"]:
-                ctx.disagree("model guard depends on the oracle", s["src"], ok, s["in_guard"])
+            if ok != s.get("model_ok"):
+                ctx.disagree("model guard depends on the oracle", s["src"], ok, s.get("model_ok"))
             seen_orders.setdefault(si, set()).add(json.dumps(obs))
         for si, s in enumerate(skels):
             if "model0" in s:
@@ -991,7 +1033,6 @@ def run(ctx: C.Ctx):
             has_else = nb > 1 and rng.random() < 0.5
             pc.append({"parent": parent, "branches": brs, "else": has_else})
             wc.append((parent, wbrs, order_all))
-        impl = C.run_impl("c10_impl.py", {"mode": "promote", "cases": pc})["results"]
         # one oracle per construct in the model: all branches of one case share it, so dictate consistent orders by rank:
         # the rank list is the concatenation of the branch orders, which sigma_rank uses per branch (first occurrence wins)
         mcases = []
@@ -1009,9 +1050,13 @@ def run(ctx: C.Ctx):
             for br in c["branches"]:
                 br["order"] = sorted(br["order"], key=rank.index)
         impl = C.run_impl("c10_impl.py", {"mode": "promote", "cases": pc})["results"]
+        impl_rev = None
+        if shape != "pinned":
+            pc_rev = [{**c, "branches": [{**br, "order": list(reversed(br["order"]))} for br in c["branches"]]} for c in pc]
+            impl_rev = C.run_impl("c10_impl.py", {"mode": "promote", "cases": pc_rev})["results"]
         mouts = ctx.model(mcases)
         kinds = {"guard_true": 0, "guard_false": 0}
-        for c, mc, r, m in zip(pc, mcases, impl, mouts):
+        for k, (c, mc, r, m) in enumerate(zip(pc, mcases, impl, mouts)):
             n_prom += 1
             if "exc" in r:
                 ctx.disagree("_promote_branch_decls raised", c, m, r)
@@ -1019,8 +1064,17 @@ def run(ctx: C.Ctx):
             got = [[n, TYPES.index(r["cpp"][n])] for n in r["order"]]
             want = [[C.wstr(d[0]), d[1]] for d in m[1]]
             kinds["guard_true" if m[2] else "guard_false"] += 1
-            if got != want or [TYPES.index(r["types"][n]) for n in r["order"]] != [d[1] for d in want]:
-                ctx.disagree("_promote_branch_decls under a dictated iteration order vs promote_if", c, want, got)
+            types_ok = [TYPES.index(r["types"][n]) for n in r["order"]] == [d[1] for d in got]
+            if shape == "pinned":
+                if got != want or not types_ok:
+                    ctx.disagree("_promote_branch_decls under a dictated iteration order vs promote_if", c, want, got)
+            else:
+                # the order no longer follows the set: the SET of hoisted declarations must still be the model's
+                # (C10_result_is_permutation) and must not move when the dictated order is reversed
+                r2 = impl_rev[k]
+                if sorted(got) != sorted(want) or not types_ok or r2.get("order") != r["order"]:
+                    ctx.disagree("_promote_branch_decls (order-insensitive shape) vs promote_if up to permutation / under the reversed dictated order",
+                                 c, want, {"dictated": got, "reversed": r2})
         dist["promote_if_dictated_order_cases"] = kinds
 
     # ------------------------------------------------------------------ correspondence 3: sorted() sites
